@@ -5,6 +5,16 @@ V = os.path.dirname(os.path.dirname(os.path.abspath(__file__)))
 props = [json.loads(l) for l in open(os.path.join(V, 'properties.jsonl'))]
 MC = 'model_checking'
 CLAIMS = {
+ 'C03': dict(
+    technique='TLA+ geometry and extractor model (Geometry.tla) checked by TLC for all small geometries; each geometry replayed into Metainfo::piece_length and the real Extractor',
+    text='TLC enumerates every piece length 1..4 x every list of up to 4 file lengths (incl. 0, several files per piece) plus real-size geometries around 16 KiB/256 KiB, checks on the model that piece lengths partition the content, that the block tiling is exact and that an element-wise extractor model reproduces every file, and hands piece lengths/offsets to the replay, where the real extractor output is compared byte-exactly (length + SHA-1) on position-dependent content.',
+    note='Trusted: TLC, SHA-1 (sha1_smol/hashlib), the content pattern generator shared by harness and driver.',
+    ref='DESIGN.md 6/C03, 5.6'),
+ 'C04': dict(
+    technique='TLA+ abstract file-system walk (PathSafety.tla) classifying every name/path component sequence, checked by TLC; every case replayed into the real Extractor inside a canary directory',
+    text='TLC enumerates all name/path component sequences over {.., ., empty, a, b, absolute-root} up to a length bound for single- and multi-file layouts, proves on the model that clean paths never leave the allowed area at any step and end at Loc, and classifies hostile ones; the real extractor is run for each case in run/ inside a canary directory and the whole canary tree is listed afterwards: any entry outside the allowed area is a violation, clean cases must be at Loc with the right bytes.',
+    note='Trusted: TLC, the recursive directory listing of the harness. Absolute paths only point into the scratch canary tree. No symlinks.',
+    ref='DESIGN.md 6/C04, 5.6'),
  'C06': dict(
     technique='TLA+ byte-level stream decoder model (FrameStream.tla over Wire.tla) checked by TLC; every reachable transition replayed into the real Connection under a paused clock; all splittings of short streams',
     text='TLC checks on the model that decoding is segmentation independent, leaves nothing decodable pending, is bounded and dies on malformed input, for every stream of menu items (valid messages, unknown ids, wrong length prefixes, oversize, bad handshakes, garbage) and every explored read boundary incl. EOF; each reachable state (stream x previous cut x cut) is then one transition test of the real Connection::recv_frame whose delivered messages, termination and buffered byte count must equal the spec state.',
